@@ -375,6 +375,7 @@ type verifyOut struct {
 	State map[string]string `json:"state"`
 	Post  map[string]string `json:"post"`
 	Ops   int               `json:"ops"`
+	Idle  bool              `json:"idle"` // no commit between recovery and the Close/Open that follows
 }
 
 // postStride: the recovery child commits to every postStride-th key (every second key, fewer for
@@ -389,6 +390,7 @@ func postStride(p crashProgram) int {
 // crash-verify <dir> <side> <casefile> [plain|crashafter|second]
 //
 //	plain       Open, read, commit to every second key, Close, Open, read, Close
+//	idle        Open, read, Close, Open, read, Close (nothing is committed by the recovered incarnation)
 //	crashafter  Open, read, commit to every second key, then die WITHOUT Close (a second, plain crash
 //	            right after acknowledged post-recovery commits); writes the first half of the result
 //	second      Open, read (the "post" half of the result), Close
@@ -433,8 +435,9 @@ func crashVerifyMain(args []string) int {
 	})
 	// the recovered store accepts and retains further commits
 	// (every second key only: the others must keep the value they had right after recovery)
+	out.Idle = mode == "idle"
 	for i, k := range p.Keys {
-		if i%postStride(p) != 0 {
+		if i%postStride(p) != 0 || mode == "idle" {
 			continue
 		}
 		kk := k
@@ -609,7 +612,7 @@ func judgeRecovery(st ackState, v verifyOut, p crashProgram, atomic bool) []judg
 		}
 	}
 	for i, k := range p.Keys {
-		if i%postStride(p) == 0 {
+		if i%postStride(p) == 0 && !v.Idle {
 			if v.Post[k] != "post-"+k {
 				out = append(out, judgement{"C03", "post-recovery-commit-not-retained", fmt.Sprintf("after recovery, a commit of %q=%q, Close and Open, the key reads %q", k, "post-"+k, v.Post[k])})
 				break
@@ -620,6 +623,10 @@ func judgeRecovery(st ackState, v verifyOut, p crashProgram, atomic bool) []judg
 		a, aok := v.State[k]
 		b, bok := v.Post[k]
 		if a != b || aok != bok {
+			if v.Idle {
+				out = append(out, judgement{"C03", "recovered-value-lost-after-close", fmt.Sprintf("key %q read (%q, found=%v) right after recovery but (%q, found=%v) after Close and Open, with no commit in between", k, a, aok, b, bok)})
+				break
+			}
 			out = append(out, judgement{"C03", "recovered-value-lost-after-further-commits", fmt.Sprintf("key %q read (%q, found=%v) right after recovery but (%q, found=%v) after commits to other keys, Close and Open", k, a, aok, b, bok)})
 			break
 		}
@@ -728,6 +735,10 @@ func (cc *crashCaseCtx) verifyAndJudge(dir, side string, st ackState, atomic boo
 			cc.res.AddObs("recoveries_followed_by_second_crash", 1)
 			code, out = child(cc.env, "crash-verify", dir, side, cc.caseFile, "second")
 		}
+	} else if cc.nverify%3 == 1 {
+		where += "; the recovered incarnation commits nothing, Close, Open"
+		cc.res.AddObs("recoveries_followed_by_idle_close", 1)
+		code, out = child(cc.env, "crash-verify", dir, side, cc.caseFile, "idle")
 	} else {
 		code, out = child(cc.env, "crash-verify", dir, side, cc.caseFile, "plain")
 	}
@@ -1190,6 +1201,12 @@ func crashSelfTest() error {
 	}
 	if js := judgeRecovery(st, verifyOut{State: map[string]string{"a": "1", "b": "2"}, Post: map[string]string{"a": "post-a", "c": "post-c"}}, p, true); len(js) != 1 || js[0].Sig != "recovered-value-lost-after-further-commits" {
 		return fmt.Errorf("crash judge self-test: value lost after post-recovery commits not flagged")
+	}
+	if js := judgeRecovery(st, verifyOut{Idle: true, State: map[string]string{"a": "1", "b": "2"}, Post: map[string]string{"b": "2"}}, p, true); len(js) != 1 || js[0].Sig != "recovered-value-lost-after-close" {
+		return fmt.Errorf("crash judge self-test: value lost by an idle Close after recovery not flagged")
+	}
+	if js := judgeRecovery(st, verifyOut{Idle: true, State: map[string]string{"a": "1", "b": "2"}, Post: map[string]string{"a": "1", "b": "2"}}, p, true); len(js) != 0 {
+		return fmt.Errorf("crash judge self-test: an idle Close that keeps everything was flagged: %v", js)
 	}
 	return nil
 }
